@@ -563,24 +563,30 @@ func sendClosedCheck[T any](ch chan<- T, v T) {
 
 // ---------------------------------------------------------------- sync
 
+// Every lock and unlock is a place where the schedule may switch (seamPoint): the windows
+// between "checked under the read lock" and "written under the write lock", or between two
+// critical sections, are where lost updates live.
 func MutexLock(m *sync.Mutex) {
+	seamPoint()
 	for !m.TryLock() {
 		YieldBlocked()
 	}
 }
-func MutexUnlock(m *sync.Mutex) { m.Unlock(); epoch++ }
+func MutexUnlock(m *sync.Mutex) { m.Unlock(); epoch++; seamPoint() }
 func RWLock(m *sync.RWMutex) {
+	seamPoint()
 	for !m.TryLock() {
 		YieldBlocked()
 	}
 }
-func RWUnlock(m *sync.RWMutex) { m.Unlock(); epoch++ }
+func RWUnlock(m *sync.RWMutex) { m.Unlock(); epoch++; seamPoint() }
 func RWRLock(m *sync.RWMutex) {
+	seamPoint()
 	for !m.TryRLock() {
 		YieldBlocked()
 	}
 }
-func RWRUnlock(m *sync.RWMutex) { m.RUnlock(); epoch++ }
+func RWRUnlock(m *sync.RWMutex) { m.RUnlock(); epoch++; seamPoint() }
 
 func WGAdd(wg *sync.WaitGroup, n int) { wgCount[wg] += n; epoch++ }
 func WGDone(wg *sync.WaitGroup)       { wgCount[wg]--; epoch++ }
